@@ -666,6 +666,71 @@ def rule_name_tables(ctx, f):
                       "another variant" % (sorted(wtab.get(vn, [])), vn, sorted(rtab[vn])), wb["span"], detail="%s <-> /%s" % (vn, "/".join(sorted(rtab[vn]))))
 
 
+ACCESSORS = {"as_array": {"Array"}, "as_bool": {"Boolean"}, "as_integer": {"Integer"}, "as_name": {"Name"}, "as_number": {"Integer", "Number"}, "as_string": {"String"},
+             "as_u32": {"Integer"}, "as_u8": {"Integer"}, "as_usize": {"Integer"}, "into_array": {"Array"}, "into_dictionary": {"Dictionary"}, "into_name": {"Name"},
+             "into_reference": {"Reference"}, "into_stream": {"Stream"}, "into_string": {"String"}}
+
+
+def _ok_variants(f, b, adt):
+    """variants of the scrutinised enum whose arm (and only that arm) reaches an Ok / Some result"""
+    from tables import enum_switches
+    sws = enum_switches(b, adt, f)
+    if not sws:
+        return None
+    vs = {v["vi"]: v["name"] for v in f.adts[adt]["variants"]}
+    i, pl, arms, other = sws[0]
+    cfg = CFG(b)
+    out = set()
+    for vi, tg in arms.items():
+        oth = {x for v2, x in arms.items() if x != tg} | {other}
+        reach = cfg.reachable_from(tg, avoid={i}) | {tg}
+        excl = reach - set().union(*[cfg.reachable_from(o, avoid={i}) | {o} for o in oth if o is not None and o != tg]) if oth else reach
+        if any(st[0] == "assign" and st[1] == [0] and st[2][0] == "aggregate" and st[2][1].get("variant") in ("Ok", "Some") for r in excl | {tg} for st in b["blocks"][r]["stmts"]):
+            out.add(vs[vi])
+    return out
+
+
+def rule_accessors(ctx, f):
+    ctx.rule("C15-TABLE-acc", "the conversions every typed field is read through accept exactly the primitive kinds the writers emit for that type: as_integer / as_u32 / "
+             "as_usize take an Integer only (a real is not silently truncated), as_number an Integer or a Number, as_name a Name ..; the hand-written Font reader maps "
+             "each /Subtype to the variant of the same name")
+    n = 0
+    for nm, want in sorted(ACCESSORS.items()):
+        b = f.body("primitive::Primitive::" + nm)
+        if b is None:
+            continue
+        got = _ok_variants(f, b, "primitive::Primitive")
+        if got is None:
+            continue
+        n += 1
+        ctx.check(got == want, "C15-TABLE-acc", "Primitive::%s" % nm, "Primitive::%s succeeds for %s (expected %s): a value of another kind is converted on the way in and is "
+                  "written back as something else" % (nm, sorted(got), sorted(want)), b["span"], detail="%s <- %s" % (nm, "/".join(sorted(want))))
+    ctx.floor("C15-TABLE-acc", n, 10, "conversion helpers of Primitive")
+    fb = f.impl_method("object::Object", "font::Font", "from_primitive")
+    if fb is None:
+        ctx.lost("C15-TABLE-acc", "<Font as Object>::from_primitive")
+        return
+    from tables import enum_switches, exclusive_regions, region_aggregates
+    sws = enum_switches(fb, "font::FontType", f)
+    if not ctx.floor("C15-TABLE-acc", len(sws), 1, "match on the font's /Subtype in the Font reader"):
+        return
+    tv = {v["vi"]: v["name"] for v in f.adts["font::FontType"]["variants"]}
+    dnames = {v["name"] for v in f.adts["font::FontData"]["variants"]}
+    i, pl, arms, other = sws[0]
+    cfg = CFG(fb)
+    regs = exclusive_regions(cfg, {tv[k]: tg for k, tg in arms.items()})
+    tgts = {}
+    for k, tg in arms.items():
+        tgts.setdefault(tg, []).append(tv[k])
+    for k, tg in sorted(arms.items()):
+        vn = tv[k]
+        built = {st[2][1]["variant"] for r, st in region_aggregates(fb, regs.get(vn, set()) | {tg}, "font::FontData")}
+        want = {vn} if vn in dnames else {"Other"}
+        shared = [x for x in tgts[tg] if x != vn]
+        ctx.check(built == want and not shared, "C15-TABLE-acc", "Font#subtype-%s" % vn, "a font with /Subtype /%s is read as FontData::%s%s: it is written back with "
+                  "another /Subtype" % (vn, "/".join(sorted(built)) or "?", (" (arm shared with %s)" % ", ".join(shared)) if shared else ""), fb["span"], detail="/%s -> FontData::%s" % (vn, sorted(want)[0]))
+
+
 def run(ctx):
     f = F.load("default")
     ctx.count("bodies", len(f.bodies))
@@ -675,6 +740,7 @@ def run(ctx):
     rule_variants(ctx, f)
     rule_positional(ctx, f)
     rule_name_tables(ctx, f)
+    rule_accessors(ctx, f)
     rule_absent(ctx, f)
     return ctx.finish(
         "Static analysis of the macro-EXPANDED reader and writer impls in MIR: dictionary keys are extracted by tracing string constants into "
